@@ -40,6 +40,7 @@ type interpreter struct {
 	modulePath string
 	rtPath     string // import path of verifrt
 	trace      bool
+	thorough   bool
 }
 
 type deferred struct {
@@ -516,6 +517,13 @@ func callSSA(i *interpreter, caller *frame, callpos token.Pos, fn *ssa.Function,
 		}
 		if fn.Pkg != nil && fn.Pkg.Pkg.Path() == "log/slog" {
 			return slogStub(fn)
+		}
+		if len(fr.m.summarize) > 0 {
+			if group, sf := summaryFor(name); sf != nil && fr.m.summarize[group] {
+				if r, ok := sf(fr, args); ok {
+					return r
+				}
+			}
 		}
 		if fn.Pkg != nil {
 			pp := fn.Pkg.Pkg.Path()
